@@ -329,6 +329,59 @@ func TestVerifC16(t *testing.T) {
 			meta.emit(map[string]any{"scn": id, "scenario": sc, "lists": len(lists), "promos": len(promoted)})
 		}
 	}
+	// ---- part 4: an UNREACHABLE cascade replica is still a cascade replica ----
+	// two HA nodes and a cascade replica that is down (or answers dubiously); the master's mysync dies while its server
+	// and the HA replica are fine: "all HA replicas replicate" is a veto of the automatic failover, and the count of HA
+	// nodes it is compared with must not include the dead cascade replica
+	for _, cdown := range []string{"dead", "dubious"} {
+		k++
+		if k%sn != si {
+			continue
+		}
+		id := "c16-deadcascade-" + cdown
+		sc := vScenario{ID: id, Hosts: []string{"h1", "h2", "c1"}, Cascade: map[string]string{"c1": "h2"}, Master: "h1", Manager: "h2", W: 1, Base: 3,
+			Req: reqSpec{Kind: "none"}, Policy: "flow", Rounds: 12, Cfg: map[string]any{"failover": true, "failover_delay": 0, "failover_cooldown": 0}}
+		filed := 0
+		var lists [][]string
+		res := vRun(t, &sc, vRunOpts{noInstances: map[string]bool{"c1": true},
+			setup: func(s *vSim) {
+				if cdown == "dead" {
+					s.W.Crash("c1")
+				} else {
+					s.W.SetNet("c1", "dubious")
+				}
+				prev := s.onEv
+				s.onEv = func(ev *verifsim.TraceEvent, wl bool) {
+					if prev != nil {
+						prev(ev, wl)
+					}
+					if ev.K == "zk" && ev.At == pathCurrentSwitch && ev.Res == "ok" && (ev.Op == "Create" || ev.Op == "SetData") && ev.By != "tool" &&
+						strings.Contains(ev.Arg, `"cause":"auto"`) && !strings.Contains(ev.Arg, `"started_by":"h`) {
+						filed++
+					}
+					if ev.K == "zk" && ev.At == pathActiveNodes && ev.Res == "ok" && (ev.Op == "SetData" || ev.Op == "Create") && ev.By != "tool" {
+						var v []string
+						json.Unmarshal([]byte(ev.Arg), &v)
+						lists = append(lists, v)
+					}
+				}
+			},
+			perRound: func(s *vSim, round int) bool {
+				if round == 2 {
+					s.kill("h1") // the master's mysync dies; its MySQL server stays up and writable
+				}
+				return false
+			}})
+		if res.skipped {
+			continue
+		}
+		out.emit(map[string]any{"kind": "cascveto", "scn": id, "failoversfiled": filed, "cascade": []string{"c1"}})
+		for _, l := range lists {
+			out.emit(map[string]any{"kind": "count", "scn": id, "listed": nn(l), "promoted": []string{}, "cascade": []string{"c1"},
+				"resolved": true, "request": "none", "ha": 2, "finalmaster": res.tree.Master})
+		}
+		meta.emit(map[string]any{"scn": id, "scenario": sc})
+	}
 	meta.emit(map[string]any{"summary": true, "runs": out.n, "bases": out.n, "stragglers": vStragglers})
 	_ = verifsim.Txn("")
 }
